@@ -347,7 +347,7 @@ def run(run):
     bits_part(run, rng, run.tier == "quick")
     nfam = 330 if run.tier == "quick" else 1500
     profile = {"flat": True, "allow_regex_nokeep_single": False, "allow_regex_nokeep_multi": False, "max_fields": 6,
-               "p_class_align": 0.0}
+               "p_class_align": 0.0, "allow_noconsume": True}
     sampled = 0
     for bench in driver.families(run, rng, profile, VARIANTS, nfam, instrument=(), tag="c18"):
         fam = bench.fam
